@@ -34,7 +34,9 @@ from engine.reglob import reglobalize
 
 from vgi_rpc.http._common import _ARROW_CONTENT_TYPE, RPC_ERROR_HEADER, _RpcHttpError
 from vgi_rpc.http.server import _app, _app_stream, _app_unary, _middleware, _resources, _responses
-from vgi_rpc.rpc import MethodNotImplementedError, MethodType, RpcError, VersionError
+from vgi_rpc.metadata import PROTOCOL_VERSION_KEY
+from vgi_rpc.rpc import MethodNotImplementedError, MethodType, RpcError, RpcServer, VersionError
+from vgi_rpc.rpc._common import _current_request_metadata
 
 PROPERTY = "C15"
 ENCODED = [
@@ -172,8 +174,10 @@ class _Server:
     server_id = "srv"
     ipc_validation = None
     external_config = None
-    _protocol_version_parts = None
+    _protocol_version_parts = None  # set per run: (1, 2, 0) when the served Protocol declares a version
+    _protocol_version = "1.2.0"
     _describe_batch = None
+    _check_protocol_version = RpcServer._check_protocol_version  # the real gate (un-stubbed)
 
     def __getattr__(self, name: str):
         raise HarnessModelError(f"server.{name}: dispatch went past request validation")
@@ -201,15 +205,48 @@ def _exc_class(i: int) -> type:
     raise HarnessModelError("no such outcome")
 
 
+# Request validation = read -> name check -> protocol-version gate -> deserialize -> call signature
+# -> parameter validation.  `step` says which of the stubbed steps raises (`kind` = which class);
+# the version gate is the real one and is driven by `ver` (see _VERSIONS).
+_STEP_READ, _STEP_NAME, _STEP_DESER, _STEP_SIG, _STEP_PARAMS, _STEP_NONE = 0, 1, 2, 3, 4, 5
+_OUT["step"] = 0
+_OUT["method"] = ""
+_VERSIONS = [None, None, b"9.9.9", b"x", b"1.2.3"]  # 0: server declares no version; 1: absent; 2: mismatch; 3: malformed; 4: compatible
+_NVER = len(_VERSIONS)
+
+
+def _maybe_raise(step: int) -> None:
+    if _OUT["step"] == step:
+        raise _make_exc(_OUT["kind"])
+
+
 def _stub_read_request(stream, ipc_validation=None, external_config=None):  # noqa: ANN001, ANN201
-    k = _OUT["kind"]
-    if k < _NEXC:
-        raise _make_exc(k)
-    return ("other-name", {})
+    _maybe_raise(_STEP_READ)
+    if _OUT["step"] == _STEP_NAME:
+        return ("other-name", {})
+    return (_OUT["method"], {})
 
 
-_unary = reglobalize(_app_unary._run_unary_sync, _read_request=_stub_read_request)
-_init = reglobalize(_app_stream._run_stream_init_sync, _read_request=_stub_read_request)
+def _stub_deserialize_params(kwargs, param_types, ipc_validation=None):  # noqa: ANN001, ANN201
+    _maybe_raise(_STEP_DESER)
+
+
+def _stub_validate_call_signature(name, kwargs, param_types, param_defaults, params_schema):  # noqa: ANN001, ANN201
+    _maybe_raise(_STEP_SIG)
+
+
+def _stub_validate_params(name, kwargs, param_types):  # noqa: ANN001, ANN201
+    _maybe_raise(_STEP_PARAMS)
+
+
+_VALIDATION_STUBS = dict(
+    _read_request=_stub_read_request,
+    _deserialize_params=_stub_deserialize_params,
+    _validate_call_signature=_stub_validate_call_signature,
+    _validate_params=_stub_validate_params,
+)
+_unary = reglobalize(_app_unary._run_unary_sync, **_VALIDATION_STUBS)
+_init = reglobalize(_app_stream._run_stream_init_sync, **_VALIDATION_STUBS)
 
 
 class _FakeApp:
@@ -260,7 +297,7 @@ class _Holder:
     _app = _FakeApp()
 
 
-def _expected(route: int, ct_ok: bool, mkind: int, outcome: int) -> int:
+def _expected(route: int, ct_ok: bool, mkind: int, step: int, kind: int, ver: int) -> int:
     """The mapping table of the property, on the abstract request."""
     if not ct_ok:
         return 415
@@ -270,26 +307,53 @@ def _expected(route: int, ct_ok: bool, mkind: int, outcome: int) -> int:
     if (route == 0) == is_stream:
         return 400  # stream method on the unary route / unary method on a stream route
     if route == 2:
-        return 400 if outcome % 2 else 500
-    if outcome >= _NEXC:
+        return 400 if kind % 2 else 500
+    by_class = 400 if issubclass(_exc_class(kind), _BAD_REQUEST_CLASSES) else 500
+    if step == _STEP_READ:
+        return by_class
+    if step == _STEP_NAME:
         return 400  # method-name mismatch between path and IPC metadata
-    return 400 if issubclass(_exc_class(outcome), _BAD_REQUEST_CLASSES) else 500
+    if ver == 1 or ver == 2 or ver == 3:
+        return 400  # version rejection: absent / incompatible / malformed client protocol_version
+    if step == _STEP_DESER and (_exc_class(kind) is KeyError or _exc_class(kind) is ValueError):
+        return 400  # caller-value conversion failures are malformed parameters
+    return by_class
 
 
-_B_STUBS = ["_read_request := raises a chosen exception class | returns a mismatching name", "_set_error_response := recorder + real _set_http_status", "server.methods := linear-scan mapping", "falcon Request/Response := attribute bags"]
+def _legacy(outcome: int) -> tuple[int, int]:
+    """(step, kind) of the single `outcome` dimension used by the 415/404 items."""
+    if outcome >= _NEXC:
+        return _STEP_NAME, 0
+    return _STEP_READ, outcome
+
+
+def _setup(method, step: int, kind: int, ver: int):  # noqa: ANN001, ANN201
+    _OUT["step"], _OUT["kind"], _OUT["method"] = step, kind, method
+    _Server._protocol_version_parts = None if ver == 0 else (1, 2, 0)
+    raw = None
+    for k in range(_NVER):
+        if ver == k:
+            raw = _VERSIONS[k]
+    return _current_request_metadata.set(None if raw is None else {PROTOCOL_VERSION_KEY: raw})
+
+
+_B_STUBS = ["_read_request / _deserialize_params / _validate_call_signature / _validate_params := the chosen one raises a chosen exception class (or the read returns a mismatching name); the protocol-version gate is the real RpcServer._check_protocol_version", "_set_error_response := recorder + real _set_http_status", "server.methods := linear-scan mapping", "falcon Request/Response := attribute bags"]
 _B_ENC = [_resources._RpcResource.on_post, _resources._StreamInitResource.on_post, _resources._ExchangeResource.on_post, _app._HttpRpcApp._resolve_method, _responses._check_content_type, _app_unary._run_unary_sync, _app_stream._run_stream_init_sync, _responses._set_http_status]
 
 
-def _drive(route: int, content_type, method, mkind: int, outcome: int) -> bool:  # noqa: ANN001
+def _drive(route: int, content_type, method, mkind: int, step: int, kind: int, ver: int = 0) -> bool:  # noqa: ANN001
     ct_ok = content_type == _ARROW_CONTENT_TYPE
-    _OUT["kind"] = outcome
+    tok = _setup(method, step, kind, ver)
     del _REC[:]
     req, resp = _Req(content_type), _Resp()
     try:
         _POSTS[route](_Holder(), req, resp, method)
     except Exception:  # noqa: BLE001
-        return False  # anything escaping the resource becomes Falcon's bare 500
-    want = _expected(route, ct_ok, mkind, outcome)
+        return False  # anything escaping the resource becomes Falcon's bare 500 with a JSON body
+    finally:
+        _current_request_metadata.reset(tok)
+        _Server._protocol_version_parts = None
+    want = _expected(route, ct_ok, mkind, step, kind, ver)
     if _bare_5xx(resp):
         return False
     if len(_REC) != 1:
@@ -311,16 +375,24 @@ def _drive(route: int, content_type, method, mkind: int, outcome: int) -> bool: 
 _REAL_POSTS = [reglobalize(r.on_post, _get_request_stream=_fake_stream) for r in (_resources._RpcResource, _resources._StreamInitResource, _resources._ExchangeResource)]
 
 
-def _replay_drive(route: int, content_type, method, mkind: int, outcome: int) -> str | None:  # noqa: ANN001
-    """Same request on the real resource with the REAL _set_error_response (pyarrow) and a real
-    falcon.Response; only the request-reading outcome is still injected."""
-    _OUT["kind"] = outcome
+_STEP_NAMES = ["reading the request", "the IPC method name differing from the path", "parameter deserialisation", "call-signature validation", "parameter validation", "no stubbed step"]
+_VER_NAMES = ["server declares no protocol_version", "client protocol_version absent", "client protocol_version 9.9.9 vs server 1.2.0", "client protocol_version malformed", "client protocol_version compatible"]
+
+
+def _replay_drive(route: int, content_type, method, mkind: int, step: int, kind: int, ver: int = 0) -> str | None:  # noqa: ANN001
+    """Same request on the real resource with the REAL _set_error_response (pyarrow), the real
+    version gate and a real falcon.Response; only the outcome of the stubbed step is injected."""
+    tok = _setup(method, step, kind, ver)
     resp = falcon.Response()
+    what = f"{_STEP_NAMES[step]}" + (f" raises {_exc_class(kind).__name__}" if step not in (_STEP_NAME, _STEP_NONE) else "") + f", {_VER_NAMES[ver]}"
     try:
         _REAL_POSTS[route](_Holder(), _Req(content_type), resp, method)
     except Exception as e:  # noqa: BLE001
-        return f"route {route}: {type(e).__name__} escapes the resource (Falcon answers a bare 500)"
-    want = _expected(route, content_type == _ARROW_CONTENT_TYPE, mkind, outcome)
+        return f"POST {method!r} on the {('unary', 'init', 'exchange')[route]} route ({what}): {type(e).__name__} escapes the resource — Falcon answers a bare 500 with a JSON body instead of an Arrow error response"
+    finally:
+        _current_request_metadata.reset(tok)
+        _Server._protocol_version_parts = None
+    want = _expected(route, content_type == _ARROW_CONTENT_TYPE, mkind, step, kind, ver)
     status = str(resp.status)[:3]
     marker = resp.get_header(RPC_ERROR_HEADER)
     shown = ("200+marker" if (status == "200" and marker == "true") else status)
@@ -331,21 +403,20 @@ def _replay_drive(route: int, content_type, method, mkind: int, outcome: int) ->
     except Exception:  # noqa: BLE001
         body_ok = False
     if shown != want_shown or not body_ok:
-        what = "request reading raises " + _exc_class(outcome).__name__ if outcome < _NEXC else "IPC method name differs from the path"
         return f"route {('unary', 'init', 'exchange')[route]}, Content-Type {content_type!r}, method {method!r}, {what}: HTTP {shown} (Arrow body decodable: {body_ok}), the mapping requires {want_shown}"
     return None
 
 
 def _rp_ct(a: dict) -> str | None:
-    return _replay_drive(a["route"], None if a["absent"] else a["ct"], _STREAM_NAME if a["stream_method"] else _UNARY_NAME, 1 if a["stream_method"] else 0, a["outcome"])
+    return _replay_drive(a["route"], None if a["absent"] else a["ct"], _STREAM_NAME if a["stream_method"] else _UNARY_NAME, 1 if a["stream_method"] else 0, *_legacy(a["outcome"]))
 
 
 def _rp_404(a: dict) -> str | None:
-    return _replay_drive(a["route"], _ARROW_CONTENT_TYPE, a["mname"], 2, a["outcome"])
+    return _replay_drive(a["route"], _ARROW_CONTENT_TYPE, a["mname"], 2, *_legacy(a["outcome"]))
 
 
 def _rp_ladder(a: dict) -> str | None:
-    return _replay_drive(a["route"], _ARROW_CONTENT_TYPE, _STREAM_NAME if a["stream_method"] else _UNARY_NAME, 1 if a["stream_method"] else 0, a["outcome"])
+    return _replay_drive(a["route"], _ARROW_CONTENT_TYPE, _STREAM_NAME if a["stream_method"] else _UNARY_NAME, 1 if a["stream_method"] else 0, a["step"], a["kind"], a["ver"])
 
 
 @cond(q=40, t=120, stubs=_B_STUBS, encoded=_B_ENC, bound="3 routes x {unary, stream} method x content type = None | any str len<=%d (request reading would fail with any of the 10 outcomes)" % _LM,
@@ -356,7 +427,8 @@ def wrong_content_type_is_415(route: int, absent: bool, ct: str, stream_method: 
     post: _
     """
     # a string of len<=_LM is never the Arrow content type (checked at import), so this is always the 415 row
-    return _drive(route, None if absent else ct, _STREAM_NAME if stream_method else _UNARY_NAME, 1 if stream_method else 0, outcome)
+    step, kind = _legacy(outcome)
+    return _drive(route, None if absent else ct, _STREAM_NAME if stream_method else _UNARY_NAME, 1 if stream_method else 0, step, kind)
 
 
 @cond(q=40, t=120, stubs=_B_STUBS, encoded=_B_ENC, bound="3 routes x method name = any str len<=%d, correct content type" % _LM,
@@ -368,17 +440,24 @@ def unknown_method_is_404(route: int, mname: str, outcome: int) -> bool:
     """
     if mname == _UNARY_NAME or mname == _STREAM_NAME:
         return True  # a known method: row of the next item
-    return _drive(route, _ARROW_CONTENT_TYPE, mname, 2, outcome)
+    step, kind = _legacy(outcome)
+    return _drive(route, _ARROW_CONTENT_TYPE, mname, 2, step, kind)
 
 
-@cond(q=40, t=120, stubs=_B_STUBS, encoded=_B_ENC, bound="3 routes x {unary, stream} method x 10 request-reading outcomes, correct content type",
+@cond(q=60, t=120, stubs=_B_STUBS, encoded=_B_ENC,
+      bound="3 routes x {unary, stream} method x failing validation step in {read, name mismatch, deserialize, call signature, parameter validation, none} x 9 exception classes "
+            "x protocol version in {server undeclared, client absent, incompatible, malformed, compatible} (at least one step fails), correct content type",
       replay=_rp_ladder, signature=lambda a, c: "C15:request-validation:wrong-status")
-def request_validation_is_400_else_200_marker(route: int, stream_method: bool, outcome: int) -> bool:
+def request_validation_is_400_else_200_marker(route: int, stream_method: bool, step: int, kind: int, ver: int) -> bool:
     """
-    pre: 0 <= route <= 2 and 0 <= outcome <= _NEXC
+    pre: 0 <= route <= 2 and 0 <= step <= 5 and 0 <= kind < _NEXC and 0 <= ver < _NVER
+    pre: step != 5 or ver == 1 or ver == 2 or ver == 3
     post: _
     """
-    return _drive(route, _ARROW_CONTENT_TYPE, _STREAM_NAME if stream_method else _UNARY_NAME, 1 if stream_method else 0, outcome)
+    # every step of request validation is inside the claim: whichever step refuses the request —
+    # including the (real) application protocol-version gate — the answer is a 400 Arrow error
+    # response for the validation classes, 200 + marker for anything else, never a bare 5xx.
+    return _drive(route, _ARROW_CONTENT_TYPE, _STREAM_NAME if stream_method else _UNARY_NAME, 1 if stream_method else 0, step, kind, ver)
 
 
 if len(_ARROW_CONTENT_TYPE) <= pick(3, 5) or len(_UNARY_NAME) > 3:
